@@ -6,6 +6,7 @@ import NiVerif.Gen.Irregular
 import NiVerif.Gen.Regular
 import NiVerif.Proofs.Bits
 import NiVerif.Props.C20
+import NiVerif.Gen.GetTimestamps
 
 namespace Props.C08
 open Model.Timing
@@ -522,5 +523,47 @@ theorem gen_regular_err (F : Fam) (si st i n : Int) (e : PyErr)
     | ok t0 =>
       rw [h2] at h; simp only [] at h
       exact genLoop_err F si n.toNat t0 e h
+
+/-! ### T21: `Timing.get_timestamps` end to end, as regenerated from the sources -/
+
+theorem gen_start_time_eq_model (F : Fam) (ts off : Option Int) : Gen.GetTimestamps.start_time F ts off = startTime F ts off := by
+  unfold Gen.GetTimestamps.start_time startTime
+  cases ts <;> cases off <;> rfl
+
+/-- **`Timing.get_timestamps` as regenerated from the sources is the model's `getTimestamps`**: negative index / count refused, NONE
+    refuses, REGULAR needs a timestamp and runs the generator from `start_time`, IRREGULAR checks the window and returns the slice -/
+theorem gen_get_timestamps_eq_model (F : Fam) (mode : Mode) (ts off iv : Option Int) (stamps : List Int) (i n : Int)
+    (h : mode = .regular → ts.isSome = true → iv.isSome = true) :
+    Gen.GetTimestamps.get_timestamps F mode ts off iv stamps i n = getTimestamps F mode ts off iv stamps i n := by
+  unfold Gen.GetTimestamps.get_timestamps getTimestamps
+  by_cases hi : i < 0
+  · simp [hi]
+  · by_cases hn : n < 0
+    · simp [hi, hn]
+    · simp only [hi, hn, if_false]
+      cases mode with
+      | irregular =>
+        simp only [Gen.GetTimestamps.irregular_get_timestamps, irregularTimestamps, hi, hn, if_false]
+        by_cases hw : i + n > (stamps.length : Int)
+        · simp [hw]
+        · have e : (i + n).toNat - i.toNat = n.toNat := by omega
+          simp [hw, e]
+      | regular =>
+        simp only [Gen.GetTimestamps.regular_get_timestamps]
+        cases ts with
+        | none => simp
+        | some t =>
+          cases iv with
+          | none => exact absurd (h rfl rfl) (by simp)
+          | some dt =>
+            simp only [Option.isSome_some, if_true, regularTimestamps, hi, hn, if_false, gen_start_time_eq_model]
+            cases hs : startTime F (some t) off with
+            | error e => rfl
+            | ok st =>
+              simp only [Except.bind]
+              rw [gen_regular_eq_model]
+              rfl
+      | none => rfl
+      | unknown => rfl
 
 end Props.C08
